@@ -25,7 +25,9 @@ ASSUMPTIONS = ["convergence is proved for admissible histories: a path is never 
                "labels inadmissible histories and checks them against the model only",
                "single-file input = a file directly inside the database's root folder"]
 RULE = ("random histories of length <= 12 over <= 6 paths (depth 0-2, csv-hostile names) with ops add / delete / update -a / -r / -a -r and "
-        "folder or single top-level file input, final update -a -r on the folder; non-trivial = history with at least one add, one delete "
+        "folder or single top-level file input, final update -a -r on the folder; two oracles on the real tool: the final database equals a fresh "
+        "generation, and every single update is judged against the rows it found (no row of an existing file dropped or altered, nothing dropped "
+        "without --remove, nothing added without --append, order kept, no path twice); non-trivial = history with at least one add, one delete "
         "and two updates; distinct = distinct request")
 
 
@@ -124,10 +126,34 @@ def run(oc, tier, seed, model_available, escalate):
                     argv.append("-a")
                 if r:
                     argv.append("-r")
+                before = [ru.core_rows([r_]) for r_ in ru.read_db(db)]
                 rc, _ = ru.run_main(argv)
                 if rc != "0":
                     oc.violations.append({"input": {"ops": optoks, "argv": argv[4:]}, "what": "update failed: %s" % rc})
                 rows = ru.read_db(db)
+                # ---- step oracle (second sentence of the property): what one update may and may not do to the rows it found
+                after = [ru.core_rows([r_]) for r_ in rows]
+                path_of = lambda t: t.split(":")[0]
+                on_disk = set(hx(q.encode()) for q in cur)
+                kept = [t for t in before if t in after]
+                lost = [t for t in before if t not in after]
+                new = [t for t in after if t not in before]
+                what = None
+                if any(path_of(t) in on_disk for t in lost):
+                    what = "an update dropped or altered the row of a file that still exists"
+                elif lost and not r:
+                    what = "an update without --remove dropped or altered a row"
+                elif [t for t in after if t in before] != kept:
+                    what = "an update reordered the surviving rows"
+                elif new and not a:
+                    what = "an update without --append added a row"
+                elif len(set(path_of(t) for t in after)) != len(after) and len(set(path_of(t) for t in before)) == len(before):
+                    what = "an update duplicated a path"
+                elif any(path_of(t) in set(path_of(u) for u in before) for t in new):
+                    what = "append mode added a second row for a path that already had one"
+                if what and not any(t.startswith("malformed-row") for t in before):
+                    oc.violations.append({"input": {"initial": sorted(tree), "ops": optoks, "argv": argv[4:], "single": single},
+                                          "impl": {"before": before[:200], "after": after[:200]}, "what": what})
                 snaps.append(ru.core_rows(rows))
                 rows_have = set(r_["path"] for r_ in rows)
                 for r_ in rows:
